@@ -74,7 +74,11 @@ func c04Case(rep Rep) (key, detail string) {
 // C04real checks encodings on the representation alphabet of the real curve.
 func C04real(r *ev.Report) {
 	reps := Reps(0)
-	r.Rule("real curve: Encode, EncodeUncompressed, XCoordinate, Hex, MarshalBinary and both Decode round trips on every (point alphabet x all scalings) incl. all identity representations; oracle = SEC1 encoder on the affine math/big point; non-trivial = scaling != 1")
+	for _, e := range CoordPatternReps() {
+		reps = append(reps, IdxRep{e, -1})
+	}
+
+	r.Rule("real curve: Encode, EncodeUncompressed, XCoordinate, Hex, MarshalBinary and both Decode round trips on every (point alphabet x all scalings) incl. all identity representations, and on the coordinate-pattern representations of G and H (stored X or Y limbs from the limb-product alphabet); oracle = SEC1 encoder on the affine math/big point; non-trivial = scaling != 1")
 	r.Bound("representations", len(reps))
 	r.States.Add(int64(len(reps)))
 
